@@ -317,6 +317,17 @@ fn main() {
             let ty = if server { 2 } else { 1 };
             let hello = if dtls { cat::dtls_record(0x16, 0xfefd, 0, 1, |w| { w.append(&cat::dtls_hs(ty, 0, None, 0, body)); }).buf } else { cat::record(0x16, 0x0303, |w| { w.append(&cat::hs(ty, body)); }).buf };
             for &n in &sizes {
+                // small followers of every other kind (heartbeat request / response, alerts, ChangeCipherSpec): what a hello
+                // announced never makes the multi-record parser refuse a record the single-record parser takes
+                if n == 0 && !dtls {
+                    for small in [&[0x18u8, 3, 3, 0, 5, 1, 0, 2, 0xaa, 0xbb][..], &[0x18, 3, 3, 0, 5, 2, 0, 2, 0xaa, 0xbb][..], &[0x15, 3, 3, 0, 2, 1, 0][..], &[0x15, 3, 3, 0, 2, 2, 40][..], &[0x14, 3, 3, 0, 1, 1][..]] {
+                        let mut b = hello.clone();
+                        b.extend_from_slice(small);
+                        check(&b, sink);
+                        b.extend_from_slice(&[0x17, 3, 3, 0, 1, 9]);
+                        check(&b, sink);
+                    }
+                }
                 for fty in [0x17u8, 0x16] {
                     if dtls && fty == 0x17 {
                         continue;
